@@ -422,10 +422,13 @@ class At5AirConditioner(pyairtouch.api.AirConditioner):
         old_status = self._ac_status
         self._ac_status = ac_status
 
-        if old_status != ac_status:
-            # Ensure error information is up to date according to the current
-            # error code.
-            if ac_status.has_error():
+        changed = old_status != ac_status
+
+        # Ensure error information is up to date according to the current error
+        # code. It is also asked for when an unchanged status still lacks it: the
+        # answer to the earlier request may have been lost with the connection.
+        if ac_status.has_error():
+            if changed or self._ac_error_info is None:
                 await self._socket.send(
                     message=ExtendedMessage(
                         sub_message=err_info_msg.AcErrorInformationRequest(
@@ -434,9 +437,10 @@ class At5AirConditioner(pyairtouch.api.AirConditioner):
                     ),
                     retry_policy=pyairtouch.comms.socket.RETRY_CONNECTED,
                 )
-            else:
-                self._ac_error_info = None
+        elif changed:
+            self._ac_error_info = None
 
+        if changed:
             await _notify_subscribers(
                 [
                     s(self.ac_id)
